@@ -38,6 +38,12 @@ def many_sets():
         sets = [[ord(letters[i]), ord(letters[i + 1])] for i in range(k)]
         c = dict(len=L, allow=2, require=flags, exclude=0, allowChars=[], requireSets=sets, excludeChars=[])
         out.append(dict(kind="char", char=c, maxTrials=0, failRateOne=0, mode="paths", paths=0, maxLeaves=0, tag="many-sets"))
+    # many very small required sets, length at or just above their number, large alphabet: the inclusion-exclusion terms nearly cancel
+    greek = [0x3B1 + i for i in range(24)] + [0x410 + i for i in range(64)] + [0x4E00 + i for i in range(40)]
+    for k, L, allow, extra in ((7, 7, 15, []), (7, 8, 15, []), (8, 8, 15, []), (8, 9, 15, greek), (7, 7, 15, greek), (7, 6, 15, greek), (6, 6, 7, greek)):
+        sets = [[ord("a") + i] for i in range(k)]
+        c = dict(len=L, allow=allow, require=0, exclude=0, allowChars=extra, requireSets=sets, excludeChars=[])
+        out.append(dict(kind="char", char=c, maxTrials=0, failRateOne=0, mode="paths", paths=0, maxLeaves=0, tag="cancellation"))
     return out
 
 
